@@ -440,8 +440,9 @@ class Explorer:
                 rec = dict(status="ok", info=out)
                 # a concrete witness of some passing paths (used for the native self-check of engine + oracle)
                 key = str((out or {}).get("result")) if isinstance(out, dict) else str(out)
-                if self.ok_models.get(key, 0) < 2:
-                    self.ok_models[key] = self.ok_models.get(key, 0) + 1
+                n_ = self.ok_models.get(key, 0)
+                self.ok_models[key] = n_ + 1
+                if n_ < 2 or (n_ % 13 == 0 and n_ < 13 * 12):          # the first two and a thin spread of later paths
                     rec["model"] = self.model_for()
             except Panic as p:
                 rec = dict(status="panic", info=str(p), model=self.model_for())
